@@ -279,7 +279,8 @@ def order_ok(records, order):
 # C14: subscriptions
 # ----------------------------------------------------------------------------------------------------------------
 class Sub:
-    __slots__ = ("key", "app", "types", "filt", "interval_ms", "mult", "order", "since", "last", "live", "impl_id", "ended_by")
+    __slots__ = ("key", "app", "types", "filt", "interval_ms", "mult", "order", "since", "last", "live", "impl_id", "ended_by",
+                 "shares_id_with_unsubscribed")
 
     def __init__(self, key, app, types, filt, interval_ms, mult, order, now, impl_id):
         self.key, self.app, self.types, self.filt = key, app, tuple(types), filt
@@ -289,6 +290,7 @@ class Sub:
         self.live = True
         self.impl_id = impl_id
         self.ended_by = None
+        self.shares_id_with_unsubscribed = False   # another subscription with the same identifier was cancelled
 
     def due(self, now):
         """'must' | 'may' | 'no' - is the interval over at `now` (clock resolution)?"""
@@ -308,6 +310,12 @@ class RefSubs:
 
     def live(self):
         return [s for s in self.subs if s.live]
+
+    def subs_by_key(self, key):
+        for s in self.subs:
+            if s.key == key:
+                return s
+        return None
 
     def matches(self, s):
         return [rec for (t, rec) in self.store if t in s.types and filter_true(rec["dataObject"], s.filt)]
